@@ -89,7 +89,8 @@ def can_templates(udp, fd):
     off = 4 if udp else 0
     for cf in ('tscf', 'ntscf'):
         hl = 24 if cf == 'tscf' else 12
-        for sizes in (([12] if fd else [8]), ([3, 16] if fd else [3, 8])):
+        # the third shape carries more than 256 bytes of ACF data in more than ten messages, with a message boundary exactly at byte 256
+        for sizes in (([12] if fd else [8]), ([3, 16] if fd else [3, 8]), ([64, 64, 64, 0, 12, 64, 8, 1, 64, 20, 5, 48] if fd else [8] * 10 + [0, 8, 3, 8, 1, 5])):
             msgs = [can_msg(0x123 + i, bytes(range(1, n + 1)), fdf=fd) for i, n in enumerate(sizes)]
             pl = b''.join(msgs)
             d = control(cf, pl, udp)
@@ -98,12 +99,14 @@ def can_templates(udp, fd):
                       ('CommonHeader', 'subtype', off, [0x05 if cf == 'ntscf' else 0x82, 0x00, 0xFF, 0x02]),
                       ('CommonHeader', 'version', off, [1, 7]), ('CommonHeader', 'h', off, [0])]
             p = off + hl
-            for m in msgs:
-                bounds += [p + 16, p + len(m)]
-                fields += [('Can', 'acf_msg_length', p, lengths(len(m) // 4, 511)), ('Can', 'pad', p, [0, 1, 2, 3]),
-                           ('Can', 'acf_msg_type', p, [2, 0, 0x7F]), ('Can', 'eff', p, [0, 1]), ('Can', 'can_identifier', p, [0x1FFFFFFF])]
+            for mi, m in enumerate(msgs):
+                if len(msgs) <= 2 or mi in (0, 10, len(msgs) - 1):      # long trains: deviations in the first, the eleventh and the last message
+                    bounds += [p + 16, p + len(m)]
+                    fields += [('Can', 'acf_msg_length', p, lengths(len(m) // 4, 511) if len(msgs) <= 2 else [0, len(m) // 4 + 1, 511]), ('Can', 'pad', p, [0, 1, 2, 3] if len(msgs) <= 2 else [3]),
+                               ('Can', 'acf_msg_type', p, [2, 0, 0x7F] if len(msgs) <= 2 else [0x7F])] + ([('Can', 'eff', p, [0, 1]), ('Can', 'can_identifier', p, [0x1FFFFFFF])] if len(msgs) <= 2 else [])
                 p += len(m)
             out.append(T('%s/%dmsg' % (cf, len(msgs)), d, bounds, fields, off + hl + 16))
+            out[-1].expect_can = [(0x123 + i, bytes(range(1, n + 1))) for i, n in enumerate(sizes)]
     return out
 
 
@@ -153,6 +156,63 @@ LISTENERS = {
 }
 
 
+def vss_big():
+    """interop-mode VSS message with a 1400-character path"""
+    h = hdr('Vss')
+    name = (b'Vehicle.Cabin.Seat.Row1.Pos1.' * 60)[:1400]
+    path = struct.pack('>H', len(name)) + name
+    val = struct.pack('>f', 1.5)
+    total = 12 + len(path) + len(val)
+    pad = (4 - total % 4) % 4
+    setf(h, 'Vss', 'acf_msg_length', (total + pad) // 4)
+    setf(h, 'Vss', 'pad', pad)
+    setf(h, 'Vss', 'addr_mode', 0)
+    setf(h, 'Vss', 'vss_datatype', 9)
+    return h + path + val + bytes(pad)
+
+
+def stepping(name, mparam, t):
+    """how consecutive well-formed datagrams of one stream differ: [(byte offset, width, delta)]"""
+    def seq_at(fmt, base):
+        for f in e4.spec()[fmt]['flist']:
+            if f['name'] == 'sequence_num':
+                return (base + f['off'] // 8, 1, 1)
+    if name == 'cvf-listener':
+        return [seq_at('Cvf', 0)]
+    if name == 'aaf-listener' or t.label == 'aaf':
+        return [seq_at('Pcm', 0)]
+    if name == 'crf-listener':
+        return [seq_at('Crf', 0)] + [(20 + 8 * i, 8, 6 * 160 * 20833) for i in range(6)]
+    udp = mparam[0] if isinstance(mparam, tuple) else mparam
+    off = 4 if udp else 0
+    return ([(0, 4, 1)] if udp else []) + [seq_at('Tscf' if t.label.startswith('tscf') else 'Ntscf', off)]
+
+
+def long_runs(name, L, n):
+    """conversations of n consecutive well-formed datagrams of one template, followed by one well-formed datagram of every
+    template of the mode: (sid, args, presets, events, template label)"""
+    out = []
+    for mlabel, args, presets, mparam in L['modes']:
+        temps = list(L['templates'](mparam))
+        if name == 'acf-vss-listener':
+            temps += cf_templates(mparam, vss_big(), 'Vss', [], '/interop-1400')
+        for t in temps:
+            steps = stepping(name, mparam, t)
+            st = ''.join('/%d.%d.%d' % x for x in steps)
+            run = 'Dx%d%s:%s' % (n, st, t.data.hex())
+
+            def cont(i):
+                d = bytearray(t.data)
+                for off, w, delta in steps:
+                    d[off:off + w] = ((int.from_bytes(d[off:off + w], 'big') + delta * i) % (1 << (8 * w))).to_bytes(w, 'big')
+                return 'D' + d.hex()
+            # one datagram of every other template of the mode (for the CRF listener: an AAF datagram, which uses up the
+            # recovered timestamps), then the stream of the run continues
+            tail = ['D' + u.data.hex() for u in temps if u is not t] + [cont(n), cont(n + 1)]
+            out.append(('%s|%s|%s|long%d' % (name, mlabel, t.label, n), args, presets, [run] + tail, mlabel, t.label))
+    return out
+
+
 def primer(t):
     """a maximal datagram that leaves adversarial bytes in a receive buffer: the template with its last structure
     repeated up to 1500 bytes and every length-like field of the control header at its maximum"""
@@ -194,6 +254,11 @@ def deviations(t):
     return out
 
 
+def classify2(st, eff, rep):
+    """e4.classify plus the loop-iteration invariant of the seam"""
+    return e4.classify(st, rep) or ('the stack grows with every datagram handled' if 'STACKGROWTH' in eff else None)
+
+
 def effect_tokens(effects):
     """(per-datagram token lists: log tokens after each RECV plus that datagram's share of stdout, whole stdout text)"""
     m = re.match(r'^(.*)STDOUT\[(.*)\]$', effects, re.S)
@@ -220,6 +285,8 @@ def run(prop, tier):
     t0 = time.time()
     b = core.fresh_dir(os.path.join(core.ROOT, 'build', 'C18'))
     kmax = 2 if tier == 'quick' else 3
+    nlong = 3000 if tier == 'quick' else 20000
+    nlongdg = 0
     planted = e4.selftest(b)
     res = core.Result()
     table = []      # replay table
@@ -311,6 +378,18 @@ def run(prop, tier):
                     key = '%s: well-formed datagram: %s' % (name, cls)
                     e = res.viol.setdefault(('C18', key), {'count': 0, 'case': sid, 'detail': 'mode %s template %s: %s' % (mlabel, tl, rep[:300]), 'tag': ''})
                     e['count'] += 1
+                elif getattr([t for ml, a_, p_, mp in L['modes'] if ml == mlabel for t in L['templates'](mp) if t.label == tl][0], 'expect_can', None) is not None:
+                    # reference model of the CAN side: one frame per ACF message, same identifier, length and data, same order
+                    want = [t for ml, a_, p_, mp in L['modes'] if ml == mlabel for t in L['templates'](mp) if t.label == tl][0].expect_can
+                    got = []
+                    for tok in (segs[-1] if segs else []):
+                        if tok.startswith('CAN '):
+                            raw = bytes.fromhex(tok[4:])
+                            got.append((int.from_bytes(raw[:4], 'little') & 0x1FFFFFFF, raw[8:8 + raw[4]]))
+                    if got != want:
+                        key = '%s: well-formed datagram: CAN frames written differ from the messages carried' % name
+                        e = res.viol.setdefault(('C18', key), {'count': 0, 'case': sid, 'detail': 'mode %s template %s: %d messages carried, %d frames written; first difference at message %d' % (mlabel, tl, len(want), len(got), next((i for i, (a_, b_) in enumerate(zip(want, got)) if a_ != b_), min(len(want), len(got)))), 'tag': ''})
+                        e['count'] += 1
                 elif not (segs and segs[-1]) and not out.strip():
                     if name not in ('crf-listener',):
                         key = '%s: well-formed datagram has no effect' % name
@@ -324,7 +403,7 @@ def run(prop, tier):
             if base[(mlabel, tl)][2]:
                 masked += 1          # the listener already fails on well-formed traffic: nothing behind that point is explored
                 continue
-            cls = e4.classify(st, rep)
+            cls = classify2(st, eff, rep)
             if cls:
                 key = '%s: %s' % (name, cls)
                 e = res.viol.setdefault(('C18', key), {'count': 0, 'case': sid, 'detail': '', 'tag': '', 'modes': set(), 'devs': set()})
@@ -364,11 +443,37 @@ def run(prop, tier):
                     e['modes'].add(mlabel); e['devs'].add(dc)
                     if not e['detail']:
                         e['detail'] = 'first: mode %s, template %s, deviation %s: expected effect %s / stdout %r, got %s / %r' % (mlabel, tl, dn, want[:2], bout[:60], have[:3], out[:80])
+        # long conversations (one deep history per listener, mode and template; all three builds)
+        lr = long_runs(name, L, nlong)
+        for variant, ex in (('pattern', exe), ('zero', exe_zero)) + ((('none', exe_plain),) if exe_plain else ()):
+            rl = e4.run_batch(ex, [x[:4] for x in lr], limit=120.0)
+            nseq += len(lr)
+            nlongdg += sum(nlong + len(x[3]) - 1 for x in lr)
+            for sid, args_, presets_, evs, mlabel, tl in lr:
+                st, eff, rep = rl[sid]
+                cls = classify2(st, eff, rep)
+                if cls:
+                    key = '%s: after a long run of well-formed datagrams: %s' % (name, cls)
+                    e = res.viol.setdefault(('C18', key), {'count': 0, 'case': sid, 'detail': 'first: mode %s, %d x template %s then one of each template (%s build): %s' % (mlabel, nlong, tl, variant, rep[:300] or (re.search(r'STACKGROWTH[^;]*', eff) or [st])[0]), 'tag': '', 'modes': set(), 'devs': set()})
+                    e['count'] += 1
+                    e['modes'].add(mlabel); e['devs'].add('long-run')
+                    continue
+                if name != 'crf-listener':
+                    # the datagrams after the run must still have their effect
+                    segs, out = effect_tokens(eff)
+                    ntail = len(evs) - 1
+                    tails = segs[-ntail:] if ntail else []
+                    if any(not sg for sg in tails) and not out.strip():
+                        key = '%s: a well-formed datagram after a long run of well-formed datagrams is not processed' % name
+                        e = res.viol.setdefault(('C18', key), {'count': 0, 'case': sid, 'detail': 'first: mode %s, %d x template %s (%s build): effects of the trailing datagrams %s' % (mlabel, nlong, tl, variant, tails), 'tag': '', 'modes': set(), 'devs': set()})
+                        e['count'] += 1
+                        e['modes'].add(mlabel); e['devs'].add('long-run')
+        scripts_long = {x[0]: [x[1], x[2], x[3]] for x in lr}
         if len(samples) < 4:
             samples.append('%s: %d scripts, e.g. %s' % (name, len(scripts), [m for m in list(meta.values())[3:4]]))
         for sid, m in meta.items():
             table.append((sid, [s for s in scripts if s[0] == sid][0][1:]) ) if False else None
-        json.dump({s[0]: [s[1], s[2], s[3]] for s in scripts}, open(os.path.join(b, name + '.scripts.json'), 'w'))
+        json.dump(dict({s[0]: [s[1], s[2], s[3]] for s in scripts}, **scripts_long), open(os.path.join(b, name + '.scripts.json'), 'w'))
     for k, e in res.viol.items():
         if 'modes' in e:
             e['detail'] += ' | modes: %s | deviation classes: %s' % (sorted(e['modes']), sorted(e['devs'])[:12])
